@@ -136,6 +136,7 @@ func c17Workloads(c *ctx) error {
 		{name: "5ref-rewrite", refsPerTx: 5, nameLen: 16, fresh: false},
 		{name: "2ref-sym-b256", refsPerTx: 2, nameLen: 30, fresh: true, symref: true, blockSize: 256},
 		{name: "4ref-sha256", refsPerTx: 4, logsPerTx: 1, nameLen: 10, fresh: true, sha256: true},
+		{name: "10ref-short", refsPerTx: 10, nameLen: 5, fresh: true},
 	}
 	N := 150
 	if c.thorough() {
@@ -281,5 +282,106 @@ func c17Workloads(c *ctx) error {
 		}
 	}
 	c.stats["workloads"] = summary
+	return c17Synth(c)
+}
+
+// AutoCompact on stacks of arbitrary shape: tables of chosen record counts are
+// added with auto-compaction off (so any size vector can arise, not only the
+// ones a single writer's own history produces), then AutoCompact runs once and
+// what it did is compared with the model's decision on the sizes it saw.
+func c17Synth(c *ctx) error {
+	n := 250
+	if c.thorough() {
+		n = 4000
+	}
+	counts := []int{1, 2, 3, 5, 8, 12, 20, 33, 60, 110}
+	shapes := map[string]int{}
+	for i := 0; i < n; i++ {
+		dir := filepath.Join(c.work, fmt.Sprintf("syn%d", i))
+		os.MkdirAll(dir, 0755)
+		cfg := reftable.Config{}
+		switch c.rng.Intn(3) {
+		case 0:
+			cfg.BlockSize = 512
+			cfg.Unaligned = true
+		case 1:
+			cfg.Unaligned = true
+		}
+		st, err := reftable.NewStack(dir, cfg)
+		if err != nil {
+			return err
+		}
+		reftable.VerifSetAutoCompact(st, false)
+		nt := 2 + c.rng.Intn(7)
+		mode := c.rng.Intn(4)
+		base := c.rng.Intn(len(counts))
+		for j := 0; j < nt; j++ {
+			var k int
+			switch mode {
+			case 0: // arbitrary
+				k = counts[c.rng.Intn(len(counts))]
+			case 1: // descending with collisions lower down (a balanced top over an unbalanced bottom)
+				idx := len(counts) - 1 - j/2
+				if idx < 0 {
+					idx = 0
+				}
+				k = counts[idx]
+			case 2: // few classes
+				k = counts[(base+c.rng.Intn(2))%len(counts)]
+			default: // equal pair low in the stack, distinct classes above it
+				idx := len(counts) - 1 - j
+				if j < 2 {
+					idx = len(counts) - 2
+				}
+				if idx < 0 {
+					idx = 0
+				}
+				k = counts[idx]
+			}
+			ui := st.NextUpdateIndex()
+			err := st.Add(func(w *reftable.Writer) error {
+				w.SetLimits(ui, ui)
+				for r := 0; r < k; r++ {
+					h := make([]byte, 20)
+					c.rng.Read(h)
+					rec := reftable.RefRecord{RefName: fmt.Sprintf("refs/heads/%03d-%04d", j, r), UpdateIndex: ui, Value: h}
+					if err := w.AddRef(&rec); err != nil {
+						return err
+					}
+				}
+				return nil
+			})
+			if err != nil {
+				return fmt.Errorf("synth add: %v", err)
+			}
+		}
+		sizes := reftable.VerifTableSizes(st)
+		before := reftable.VerifTableNames(st)
+		if err := st.AutoCompact(); err != nil {
+			return fmt.Errorf("AutoCompact: %v", err)
+		}
+		after := reftable.VerifTableNames(st)
+		first := 0
+		for first < len(before) && first < len(after) && before[first] == after[first] {
+			first++
+		}
+		obs := fmt.Sprintf("%d %d %d", len(before), len(after), first)
+		if len(after) == len(before) {
+			obs = fmt.Sprintf("%d %d -", len(before), len(after))
+			shapes["no-compaction"]++
+		} else if first+1 == len(after) {
+			shapes["compacted-top"]++
+		} else {
+			shapes["compacted-below-top"]++
+		}
+		if strings.Join(after, ",") != strings.Join(readList(dir), ",") {
+			obs += " list-differs-from-handle"
+		}
+		c.emit("autocompact", u64s(sizes), obs)
+		st.Close()
+		os.RemoveAll(dir)
+	}
+	c.stats["synthetic_stacks"] = n
+	c.stats["synthetic_outcomes"] = shapes
 	return nil
 }
